@@ -123,3 +123,16 @@ Definition convert_level (boxes : list (list Z * list Z))
   let mins := fold_left (fun acc r => scatter_rows (snd (fst r)) (map (fun b => snd (fst b)) (snd r)) acc) results (repeat [] n) in
   let maxs := fold_left (fun acc r => scatter_rows (snd (fst r)) (map snd (snd r)) acc) results (repeat [] n) in
   Some (newfiles, cells, mins, maxs).
+
+(* ---- chk2plt.write_level_header: the level header of the converted level (field count, index ranges, the (file, offset)
+   table and the minima / maxima rows, '%.16e' prints standing as word tokens) next to the binary files ---- *)
+Definition convert_level_dir (nout : Z) (boxes : list (list Z * list Z))
+           (state_files : list (bytes * bytes)) (state_cells : list (bytes * Z))
+           (gradp_files : list (bytes * bytes)) (gradp_cells : list (bytes * Z))
+           (ir_files : list (bytes * bytes)) (ir_cells : list (bytes * Z))
+           (do_gradp do_ir : bool) (floored : option (list (list bytes))) (y_start nspecies : Z) : option ldir :=
+  do r <- convert_level boxes state_files state_cells gradp_files gradp_cells ir_files ir_cells do_gradp do_ir floored y_start nspecies;
+  let '(files, cells, mins, maxs) := r in
+  Some {| ld_cellh := Some (print_cellh nout {| c_indexes := boxes; c_files := map fst cells; c_offsets := map snd cells;
+                                                 c_mins := map (map word_token) mins; c_maxs := map (map word_token) maxs |});
+          ld_files := files |}.
